@@ -2,6 +2,7 @@ import Driver.Util
 import Driver.CatsWire
 import SymbolVerif.Model.Cats.Parser
 import SymbolVerif.Model.Cats.Printer
+import SymbolVerif.Model.Cats.Expand
 namespace Driver.CatsParse
 open SymbolVerif SymbolVerif.Cats SymbolVerif.Cats.Parser Driver Driver.CatsWire
 
@@ -15,6 +16,15 @@ def renderTree (d : Decl) : String :=
     | .struct s => s.fields.map Member.render
   "{\"decl\":" ++ jsonStr d.render ++ ",\"children\":" ++ jsonList (children.map jsonStr) ++ "}"
 
+/-- the declarations after `AstPostProcessor.apply_attributes` (what `catparser.__main__` describes and emits) -/
+def appliedReport (ds : Schema) : String :=
+  match applyAttributes ds with
+  | .ok S =>
+    "{\"ok\":true,\"wire\":" ++ jsonStr (encSchema S) ++
+      ",\"legacy\":" ++ jsonList (S.map fun d => d.toLegacy.toJson) ++
+      ",\"render\":" ++ jsonList (S.map renderTree) ++ "}"
+  | .error e => "{\"ok\":false,\"msg\":" ++ jsonStr e ++ "}"
+
 def report (items : List Item) : String :=
   let ds := declsOf items
   let kinds := items.map fun
@@ -25,7 +35,8 @@ def report (items : List Item) : String :=
     ",\"legacy\":" ++ jsonList (ds.map fun d => d.toLegacy.toJson) ++
     ",\"render\":" ++ jsonList (ds.map renderTree) ++
     ",\"items\":" ++ jsonList kinds ++
-    ",\"print\":" ++ jsonStr (Printer.print ds) ++ "}"
+    ",\"print\":" ++ jsonStr (Printer.print ds) ++
+    ",\"applied\":" ++ appliedReport ds ++ "}"
 
 def failure (e : ParseError) : String :=
   "{\"ok\":false,\"line\":" ++ toString e.line ++ ",\"msg\":" ++ jsonStr e.msg ++ "}"
